@@ -1,7 +1,7 @@
 /-
   Lemmas about `decodeEsc` (Tranp/Model/Evaluator.lean): decoding a joined body in terms of the two bodies.
 -/
-import Tranp.Lemmas.Evaluator
+import Tranp.Model.Evaluator
 
 namespace Tranp.Evaluator
 open Tranp
@@ -42,5 +42,43 @@ theorem unq_cat {l r : Str} (h : allowString l = true) : unq (cat l r) = unq l +
   cases l with
   | nil => simp [allowString, Generated.EvalOps.longQuoteMinLen] at h
   | cons q rest => simp [cat, unq]
+
+/-- the join law (stated as `C17.join_decodes`) -/
+theorem join_decodes_core (l r : Str) (h : joinsEscape l r = false) : decodeEsc (l ++ r) = decodeEsc l ++ decodeEsc r := by
+  unfold decodeEsc
+  rw [decodeGo_append, decodeGo_eq .normal l, List.append_assoc]
+  congr 1
+  apply decodeGo_settled
+  unfold joinsEscape at h
+  cases hst : endState .normal l with
+  | normal => exact Or.inl rfl
+  | oct v n =>
+    refine Or.inr ⟨v, n, rfl, ?_⟩
+    rw [hst] at h
+    cases r with
+    | nil => trivial
+    | cons c cs => simpa using h
+  | backslash => rw [hst] at h; cases h
+  | hex0 => rw [hst] at h; cases h
+  | hex1 c0 v => rw [hst] at h; cases h
+
+/-- a body without backslash decodes to itself -/
+theorem decode_id {raw : Str} (h : raw.contains '\\' = false) : decodeEsc raw = raw := by
+  unfold decodeEsc
+  induction raw with
+  | nil => rfl
+  | cons c cs ih =>
+    simp only [List.contains_cons, Bool.or_eq_false_iff] at h
+    have hc : c ≠ '\\' := by intro hc; subst hc; simp at h
+    simp [decodeGo, stepSt, stepNormal, hc, ih h.2]
+
+theorem contains_cons_false {x c : Char} {cs : Str} (hx : x ≠ c) (h : cs.contains c = false) : (x :: cs).contains c = false := by
+  simp only [List.contains_eq_mem, List.mem_cons, decide_eq_false_iff_not, not_or] at *
+  exact ⟨fun e => hx e.symm, h⟩
+
+theorem contains_append_false {a b : Str} {c : Char} (ha : a.contains c = false) (hb : b.contains c = false) :
+    (a ++ b).contains c = false := by
+  simp only [List.contains_eq_mem, List.mem_append, decide_eq_false_iff_not, not_or] at *
+  exact ⟨ha, hb⟩
 
 end Tranp.Evaluator
